@@ -57,8 +57,8 @@ class SitemapReader(BaseDocumentDetector, BaseExtractiveReader):
 
         peeked_data = wpull.string.printable_bytes(peeked_data)
 
-        if b'<?xml' in peeked_data \
-           and (b'<sitemapindex' in peeked_data or b'<urlset' in peeked_data):
+        # (The XML declaration is optional.)
+        if b'<sitemapindex' in peeked_data or b'<urlset' in peeked_data:
             return True
 
     def iter_links(self, file, encoding=None):
